@@ -634,6 +634,18 @@ pub fn walk(args: &[String]) {
         }
     }
 
+    // a rook that stands on (or promotes on) the OPPONENT's corner while its own side still holds castling rights: leaving that
+    // corner must not touch them (only a rook leaving its own home corner revokes a right); explored three plies deep
+    if arg::<u64>(args, "matrix", 1) == 1 && shard == 1 % of {
+        for fen in ["R7/7k/8/8/8/8/8/R3K2R w KQ - 0 1", "7R/k7/8/8/8/8/8/R3K2R w KQ - 0 1", "r3k2r/8/8/8/8/8/7K/r7 b kq - 0 1", "r3k2r/8/8/8/8/8/K7/7r b kq - 0 1",
+            "4k3/P7/8/8/8/8/8/R3K2R w KQ - 0 1", "4k3/7P/8/8/8/8/8/R3K2R w KQ - 0 1", "r3k2r/8/8/8/8/8/p7/4K3 b kq - 0 1", "r3k2r/8/8/8/8/8/7p/4K3 b kq - 0 1"] {
+            let mut b = Board::from_fen(fen);
+            writeln!(e.out, "N {fen}").unwrap();
+            e.seen.clear();
+            dfs(&mut e, &mut b, if fen.contains('P') || fen.contains('p') { 3 } else { 1 });
+        }
+    }
+
     if arg::<u64>(args, "matrix", 1) == 1 {
         let mut idx = 0u64;
         for fen in piece_square_fens().into_iter().chain(castle_pin_fens()) {
@@ -911,6 +923,29 @@ pub fn fen_stream(args: &[String]) {
             special.push(b2.to_string());
             special.push(a.to_string());
         }
+        // material far beyond any game (the evaluation's i16 arithmetic near its limits): 36 queens and 0..3 pawns against a bare
+        // king, either colour, either side to move — evaluation, mirror and side-swapped twin are compared on these too
+        for pawns in 0..4usize {
+            for white in [true, false] {
+                for turn in ["w", "b"] {
+                    let mut g: [Option<char>; 64] = [None; 64];
+                    let (q, p, own_k, other_k) = if white { ('Q', 'P', 'K', 'k') } else { ('q', 'p', 'k', 'K') };
+                    let mut n = 0;
+                    for sq in (0..64usize).rev() {
+                        if n < 36 && sq >= 24 && sq < 64 {
+                            g[if white { sq } else { 63 - sq }] = Some(q);
+                            n += 1;
+                        }
+                    }
+                    for k in 0..pawns {
+                        g[if white { 16 + k } else { 63 - (16 + k) }] = Some(p);
+                    }
+                    g[if white { 0 } else { 63 }] = Some(own_k);
+                    g[if white { 7 } else { 56 }] = Some(other_k);
+                    special.push(format!("{} {turn} - - 0 1", super::grid_placement(&g)));
+                }
+            }
+        }
         for text in special {
             let mut loaded = Board::from_fen(&text);
             if loaded.is_in_check(loaded.current_turn.opposite()) {
@@ -950,7 +985,14 @@ pub fn fen_stream(args: &[String]) {
         let cs: String = cs.into_iter().collect();
         // mostly realistic clocks; now and then one far beyond the fifty-move horizon (a u8 would not hold it)
         let half = if rng.below(8) == 0 { 150 + rng.below(500) } else { rng.below(151) };
-        let full = 1 + rng.below(6000);
+        // move numbers: mostly arbitrary; now and then the smallest ones (editors write 1 whatever the clock says) or a very large one
+        // (not the last few a u16 holds: the engine's `+= 1` overflows there, which is outside what C03 / C07 speak about)
+        let full = match rng.below(10) {
+            0 => 1,
+            1 => 2,
+            2 => 65000 + rng.below(500),
+            _ => 1 + rng.below(6000),
+        };
         let variant = rng.below(4);
         let text = match variant {
             0 => format!("{} {} {} {}", f[0], f[1], cs, f[3]),
